@@ -1,7 +1,46 @@
-//! op "scope" (stub: answers bad-op until the engine is built)
+//! op "scope": what the real compiler builds for a program.
+//!   {"op":"scope","f":"dump","src":…}  ->  {"compile":"ok","dump":"(root <base> (cells …) (decls …))"}
+//!                                          or {"compile":{"class":…,"msg":…}}
+//! The dump is the *user's* part of the root compilation scope: the cells of every scope
+//! (V / R / (C depth idx)), the declarations in order, the expression trees with (val idx).
 
+use crate::run::{R, T, W};
 use serde_json::{json, Value};
+use xray::builtin::verif_hooks::scope as hooks;
+use xray::root_compilation_scope::RootCompilationScope;
+use xray::std_compilation_scope;
 
-pub fn op(_req: &Value) -> Value {
-    json!({"bad-op": true})
+pub fn op(req: &Value) -> Value {
+    match req["f"].as_str().unwrap_or("") {
+        "dump" => {
+            let src = req["src"].as_str().unwrap_or("");
+            let mut comp: RootCompilationScope<W, R, T> = std_compilation_scope();
+            let (bc, bd) = hooks::root_counts(&comp);
+            match comp.feed_file(src) {
+                Ok(()) => {
+                    let mut cells = serde_json::Map::new();
+                    if let Some(names) = req.get("cells_of").and_then(|x| x.as_array()) {
+                        for n in names {
+                            let n = n.as_str().unwrap_or("");
+                            cells.insert(n.to_string(), json!(hooks::variable_cell(&comp, n)));
+                        }
+                    }
+                    json!({"compile": "ok", "dump": hooks::dump_compiled(&comp, bc, bd), "var_cells": cells})
+                }
+                Err(e) => {
+                    let msg = format!("{e}");
+                    let class = if msg.ends_with(']') {
+                        msg.rsplit('[')
+                            .next()
+                            .map(|s| s.trim_end_matches(']').to_string())
+                            .unwrap_or_default()
+                    } else {
+                        "Syntax".to_string()
+                    };
+                    json!({"compile": {"class": class, "msg": msg}})
+                }
+            }
+        }
+        _ => json!({"bad-op": true}),
+    }
 }
